@@ -31,6 +31,10 @@ def run(repo, run, tier):
     from ..imodel import DS
     settings_reach_integrator(repo, run, ClassModel(repo, DS, "OdeSystem"), rule_id="C05.8")
     error_measure(repo, run)
+    # 'run with tolerances (rtol, atol)': the controller must not write into the tolerance objects it was given (a per-component atol array accumulated in place
+    # grows by rtol*|y| on every attempted step)
+    from .c13 import no_inplace_on_aliases
+    no_inplace_on_aliases(repo, run, rule_id="C05.12", files=["desolver/integrators/integrator_template.py"])
     tolerance_scale_is_current(repo, run)
     # the embedded estimate h*sum (b - b_hat) k is an estimate of THIS step's error only if every k_i is this step's stage (a first stage carried over from a cache
     # keyed by time and state alone belongs to other constants / another right-hand side, and the estimators of the high-order pairs give stage 0 weight zero)
